@@ -203,6 +203,11 @@ class WithData(SimObj):
         self.k = k
 
 
+import collections as _collections
+
+NT2 = _collections.namedtuple("NT2", ["first", "second"])  # a caller's named tuple used where a Tuple[...] is expected
+
+
 class Color(Enum):
     red = 1
     green = 2
